@@ -7,7 +7,7 @@
      S k p1x p1y p2x p2y q1x q1y q2x q2y -> N | P <proper 0/1> x y w | C ax ay bx by
      C k n pts                        -> <isCCW model 0/1> <area2>
      E k p1x p1y p2x p2y q1x q1y q2x q2y -> <env_seg> <env_pt p1 p2 q1>
-     OB h*6 -> <orientationIndex> <filter> ;  D h*4 -> sign ;  XB h*8 -> hx hy ;  DD op h*4 -> hhi hlo *)
+     OB h*6 -> <orientationIndex> <filter> ;  OP h*6 -> <index>:<filter> for the six argument orders ;  D h*4 -> sign ;  XB h*8 -> hx hy ;  DD op h*4 -> hhi hlo *)
 let z = z_of_string
 let rec pos_of_bits = function          (* most significant first, leading 1 *)
   | [] -> XH
@@ -65,6 +65,13 @@ let handle line =
   | ["OB"; a; b; c; d; e; f] ->
     let h = z_of_hex in
     sz (orient_bits (h a) (h b) (h c) (h d) (h e) (h f)) ^ " " ^ sz (filter_bits (h a) (h b) (h c) (h d) (h e) (h f))
+  | ["OP"; a; b; c; d; e; f] ->
+    let h = z_of_hex in
+    let q = [| (h a, h b); (h c, h d); (h e, h f) |] in
+    let perms = [ (0,1,2); (0,2,1); (1,0,2); (1,2,0); (2,0,1); (2,1,0) ] in
+    String.concat " " (List.map (fun (i, j, k) ->
+      let (ax, ay) = q.(i) and (bx, by) = q.(j) and (cx, cy) = q.(k) in
+      sz (orient_bits ax ay bx by cx cy) ^ ":" ^ sz (filter_bits ax ay bx by cx cy)) perms)
   | ["D"; a; b; c; d] -> let h = z_of_hex in sz (signdet_bits (h a) (h b) (h c) (h d))
   | ["XB"; a; b; c; d; e; f; g; i] ->
     let h = z_of_hex in let (x, y) = intersection_bits (h a) (h b) (h c) (h d) (h e) (h f) (h g) (h i) in
